@@ -1,6 +1,8 @@
-(* C20 -- the observation functions agree with [run]; on the generated program the search
-   predicate [violation] is 0 in every reachable state (a restatement of the C20 theorems in the
-   vocabulary of the search), and it is not identically 0: the unprotected variants reach 1 and 2. *)
+(* C20 -- the observation functions agree with [run]; on the generated program (and on both reference
+   programs old_prog / new_prog) the search predicate [violation] is 0 in every reachable state (a
+   restatement of the C20 theorems in the vocabulary of the search), and it is not identically 0: the
+   unprotected variants of the publish-first shape reach 1 and 2; the unlocked publish-last shape
+   reaches 2 (two instances) but provably never 1 (nobody ever holds a half-built lexer). *)
 From SqlModel Require Import Base.
 From SqlModel.Sys Require Import Singleton SchedObs.
 From SqlModel.Gen Require Import SingletonProg.
@@ -90,30 +92,46 @@ Proof.
         -- exists t, th'. split; assumption.
 Qed.
 
-(* On the generated program no schedule of any number of threads ever reaches a violation. *)
-Theorem C20_no_violation : forall n sched,
-  violation expected_kws (run get_default_instance_prog n sched) = 0.
+(* On a well-locked program (either shape) no schedule of any number of threads ever reaches a
+   violation. *)
+Theorem wl_no_violation : forall e p, well_locked e p = true ->
+  forall n sched, violation e (run p n sched) = 0.
 Proof.
-  intros n sched. unfold violation.
-  set (st := run get_default_instance_prog n sched).
-  destruct (existsb (bad_return expected_kws st) (seq 0 (length (threads st)))) eqn:E1.
+  intros e p Hwl n sched. unfold violation.
+  set (st := run p n sched).
+  destruct (existsb (bad_return e st) (seq 0 (length (threads st)))) eqn:E1.
   { exfalso. apply existsb_exists in E1. destruct E1 as (t & _ & Hb). unfold bad_return in Hb.
     destruct (returned st t) as [o|] eqn:Er; [|discriminate].
-    pose proof (C20_init_safe n sched t o Er) as Hf. apply fully_initialisedb_spec in Hf.
+    pose proof (wl_init_safe e p Hwl n sched t o Er) as Hf. apply fully_initialisedb_spec in Hf.
     fold st in Hf. rewrite Hf in Hb. discriminate. }
   destruct (all_eq (rets (threads st))) eqn:E2; cbn [negb].
   2:{ exfalso. assert (H : all_eq (rets (threads st)) = true); [|congruence].
       apply all_eq_spec. intros a b Ha Hb.
       apply in_rets in Ha. destruct Ha as (t1 & th1 & Ht1 & Hr1).
       apply in_rets in Hb. destruct Hb as (t2 & th2 & Ht2 & Hr2).
-      apply (C20_same_instance n sched t1 t2); fold st; unfold returned.
+      apply (wl_same_instance e p Hwl n sched t1 t2); fold st; unfold returned.
       - rewrite Ht1. exact Hr1.
       - rewrite Ht2. exact Hr2. }
-  pose proof (C20_single_init n sched) as H3. fold st in H3.
+  pose proof (wl_single_init e p Hwl n sched) as H3. fold st in H3.
   destruct (1 <? length (heap st)) eqn:E3; [|reflexivity].
   apply Nat.ltb_lt in E3. lia.
 Qed.
+Print Assumptions wl_no_violation.
+
+(* On the generated program no schedule of any number of threads ever reaches a violation. *)
+Theorem C20_no_violation : forall n sched,
+  violation expected_kws (run get_default_instance_prog n sched) = 0.
+Proof. exact (wl_no_violation _ _ prog_well_locked). Qed.
 Print Assumptions C20_no_violation.
+
+(* ... nor on either reference program, whichever the source currently is *)
+Theorem C20_no_violation_both : forall n sched,
+  violation expected_kws (run old_prog n sched) = 0 /\ violation expected_kws (run new_prog n sched) = 0.
+Proof.
+  intros n sched. split;
+    [exact (wl_no_violation _ _ old_prog_well_locked n sched)
+    |exact (wl_no_violation _ _ new_prog_well_locked n sched)].
+Qed.
 
 (* every state of every trace the driver prints for the generated program is violation-free *)
 Corollary C20_trace_no_violation : forall n sched v,
@@ -138,3 +156,26 @@ Example violation_early_release_1 :
   violation expected_kws
     (run early_release_prog 2 (repeat 0 (length early_release_prog - 1) ++ [1; 1; 1; 1; 1; 0])) = 1.
 Proof. vm_compute. reflexivity. Qed.
+
+(* the publish-last shape without the lock: two instances (code 2) ... *)
+Example violation_unlocked_new_2 :
+  violation expected_kws
+    (run unlocked_new_prog 2
+         ([0; 1] ++ repeat 0 (length unlocked_new_prog) ++ repeat 1 (length unlocked_new_prog))) = 2.
+Proof. vm_compute. reflexivity. Qed.
+
+(* ... but never code 1: no thread ever holds a lexer that is not fully initialised *)
+Theorem C20_unlocked_new_never_half_built : forall n sched,
+  violation expected_kws (run unlocked_new_prog n sched) <> 1.
+Proof.
+  intros n sched. unfold violation.
+  set (st := run unlocked_new_prog n sched).
+  destruct (existsb (bad_return expected_kws st) (seq 0 (length (threads st)))) eqn:E1.
+  - exfalso. apply existsb_exists in E1. destruct E1 as (t & _ & Hb). unfold bad_return in Hb.
+    destruct (returned st t) as [o|] eqn:Er; [|discriminate].
+    pose proof (C20_unlocked_new_init_safe n sched t o Er) as Hf. apply fully_initialisedb_spec in Hf.
+    fold st in Hf. rewrite Hf in Hb. discriminate.
+  - destruct (negb (all_eq (rets (threads st)))); [discriminate|].
+    destruct (1 <? length (heap st)); discriminate.
+Qed.
+Print Assumptions C20_unlocked_new_never_half_built.
